@@ -16,13 +16,15 @@ C07 line-protocol driver (fields separated by one space; byte strings hex, `-` =
                       encode.AcceptedEncodings returns for the request (`.` | hex,hex,…)
         [query]       optional, after pre enc: r.URL.RawQuery (hex; no space, `#`, control or non-ASCII
                       byte, and no `t`: the browse parameters limit/offset are not modelled)
+        [via]         optional, after query: s | j | c (configuration delivered as struct literal / JSON /
+                      Caddyfile tokens), optionally followed by `d`: index_names omitted (index must be `.`)
         → <outcome> | <names handed to the FS: hex,… or .>
           outcome = notfound | passthru | forbidden | error | unavailable
                   | redirect [<hex Location>]   (Location only when <orig> starts with `/`)
                   | file <hexpath> <id> | listing <hexpath> <hexname,… or .>
                   | sidecar <hexpath> <id> <hexenc>
   pair <fault> <serve fields A> // <serve fields B>
-        fault         t | w<k>: request A's listing is rendered but not delivered (failing template /
+        fault         n: none; t | w<k>: request A's listing is rendered but not delivered (failing template /
                       client connection fails after k bytes); then B is served by another instance
         → B's serve answer (Props.browse_history_independent)
   matchfile <cwd> <root> <tries> <fallback> <path> <tree>
@@ -152,9 +154,23 @@ def showGlob : Option Bool → String
   | some true => "true"
   | some false => "false"
 
-def handleServe (cwd root hide index flags path orig tree pre enc : String) (query : String := "-") : String :=
-  match parseList enc, pre.toList.mapM parseBit, Hex.decode query with
-  | some accepted, some [pg, pb, pz], some query =>
+/-- `defaultIndexNames` (staticfiles.go), what `Provision` puts in place of an omitted `index_names` -/
+def defaultIndexNames : List Bytes := [str "index.html", str "index.txt"]
+
+/-- the `via` field: how the configuration reached the FileServer (struct literal, JSON through
+    `LoadModuleByID`, Caddyfile tokens through `UnmarshalCaddyfile`) — the model is the same for
+    all three — optionally followed by `d`: `index_names` omitted (the index field must be `.`) -/
+def parseVia (s : String) : Option Bool :=
+  match s.toList with
+  | [c] => if c = 's' ∨ c = 'j' ∨ c = 'c' then some false else none
+  | [c, 'd'] => if c = 's' ∨ c = 'j' ∨ c = 'c' then some true else none
+  | _ => none
+
+def handleServe (cwd root hide index flags path orig tree pre enc : String) (query : String := "-")
+    (via : String := "s") : String :=
+  match parseList enc, pre.toList.mapM parseBit, Hex.decode query, parseVia via with
+  | some accepted, some [pg, pb, pz], some query, some dflt =>
+    if dflt && index != "." then "bad-op" else
     if query.any (fun c => isCTL c || c = 35 || c = 32 || c ≥ 128 || c = 116) then "bad-op" else
     (match Hex.decode cwd, Hex.decode root, parseList hide, parseList index, flags.toList.mapM parseBit,
           Hex.decode path, Hex.decode orig, parseTree tree with
@@ -165,10 +181,11 @@ def handleServe (cwd root hide index flags path orig tree pre enc : String) (que
       if !isRooted cwd || pathClean cwd ≠ cwd || !validTree tree then "bad-op"
       else
         let r := serve (treeFS cwd tree)
-          ⟨cwd, root, hide, index, b, pt, cn, precompressors pg pb pz, accepted, query⟩ path orig
+          ⟨cwd, root, hide, if dflt then defaultIndexNames else index, b, pt, cn, precompressors pg pb pz,
+            accepted, query⟩ path orig
         showOutcome r.1 ++ " | " ++ showList r.2
     | _, _, _, _, _, _, _, _ => "bad-op")
-  | _, _, _ => "bad-op"
+  | _, _, _, _ => "bad-op"
 
 def handleServeFields : List String → String
   | [cwd, root, hide, index, flags, path, orig, tree] =>
@@ -177,11 +194,13 @@ def handleServeFields : List String → String
     handleServe cwd root hide index flags path orig tree pre enc
   | [cwd, root, hide, index, flags, path, orig, tree, pre, enc, query] =>
     handleServe cwd root hide index flags path orig tree pre enc query
+  | [cwd, root, hide, index, flags, path, orig, tree, pre, enc, query, via] =>
+    handleServe cwd root hide index flags path orig tree pre enc query via
   | _ => "bad-op"
 
-/-- `t` (failing template) or `w<k>` (client takes k bytes), k in canonical decimal -/
+/-- `n` (no fault), `t` (failing template) or `w<k>` (client takes k bytes), k in canonical decimal -/
 def validFault (s : String) : Bool :=
-  s == "t" ||
+  s == "t" || s == "n" ||
   (match s.toList with
    | 'w' :: ds => !ds.isEmpty && (match (String.ofList ds).toNat? with
                                   | some k => toString k == String.ofList ds && k ≤ 1048576
@@ -213,6 +232,8 @@ def handle : List String → String
     handleServe cwd root hide index flags path orig tree pre enc
   | ["serve", cwd, root, hide, index, flags, path, orig, tree, pre, enc, query] =>
     handleServe cwd root hide index flags path orig tree pre enc query
+  | ["serve", cwd, root, hide, index, flags, path, orig, tree, pre, enc, query, via] =>
+    handleServe cwd root hide index flags path orig tree pre enc query via
   | "pair" :: fault :: rest =>
     -- a faulted browse request A, then request B on another instance; by
     -- `Props.browse_history_independent` the answer is B's own answer
